@@ -56,6 +56,13 @@ def ops_for(case, bank_hex):
     for k in range(40):
         burst += ["on %d %d 100" % (k % 8, 40 + k % 40), "cc %d 7 %d" % (k % 8, 50 + k), "off %d %d" % (k % 8, 40 + k % 40)]
     ops += burst + ["stat %d" % sec(0.4), "stat %d" % sec(0.2)]
+    # six voices on the one chip: every held note stays audible while others are released
+    chord = [key - 12, key - 5, key, key + 4, key + 7, key + 12]
+    ops += ["on 2 %d 127" % k for k in chord] + ["stat %d" % sec(0.2)]
+    ops += ["off 2 %d" % k for k in chord[:3]] + ["stat %d" % sec(0.3), "stat %d" % sec(0.2)]       # the last three still held
+    ops += ["off 2 %d" % k for k in chord[3:]] + ["stat %d" % sec(0.3), "stat %d" % sec(0.2)]
+    ops += ["on 2 %d 127" % k for k in chord] + ["stat %d" % sec(0.1)] + ["off 2 %d" % k for k in chord[3:]] + ["stat %d" % sec(0.3), "stat %d" % sec(0.2)]   # the first three still held
+    ops += ["off 2 %d" % k for k in chord[:3]] + ["stat %d" % sec(0.3), "stat %d" % sec(0.2)]
     return ops
 
 
@@ -121,11 +128,22 @@ def run(tier, replay=None):
             quiet(pan2, "after panic")
             quiet(rst2, "after reset")
             quiet(bur2, "after a dense burst of events and its releases")
+            c_all, c_a1, c_a2, c_q1, c_q2, c_all2, c_b1, c_b2, c_q3, c_q4 = stats[12:22]
+            if c_a2["rms"] < 150:
+                fails.append("three notes of a six-note chord are still held but nothing is audible after the other three were released (rms %d)" % c_a2["rms"])
+            if c_b2["rms"] < 150:
+                fails.append("the first three notes of a six-note chord are still held but nothing is audible after the last three were released (rms %d)" % c_b2["rms"])
+            if c_all["rms"] <= max(c_a2["rms"], c_b2["rms"]) * 0.9 and c_all["rms"] < 150:
+                fails.append("a six-note chord is not audible (rms %d)" % c_all["rms"])
+            quiet(c_q2, "after all notes of a chord were released")
+            quiet(c_q4, "after all notes of a chord were released")
         for f in fails[:1]:
             nfail += 1
             if nfail <= 3:
                 ctx.violate("monitor", "# %s\n# case: %s\n%s\n" % (f, case, "\n".join(x if len(x) < 200 else x[:60] + "..." for x in h)))
                 common.write_replay(PROP, "monitor-full", "\n".join(h) + "\n")
+    ctx.samples = [{"case": str(c), "observations": impl[i * 0:0]} for i, c in enumerate(cases[:3])]
+    ctx.samples = [{"case": str(c)} for c in cases[:4]] + [{"stat": r} for r in impl if r.startswith("ret=") and "zc=" in r][:2]
     ctx.cov.update({"evaluations": len(flat), "cases": len(cases), "monitor_failures": nfail, "disagreements": 0, "traces_validated_against_impl": 0,
                     "worst_relative_pitch_error": {k: round(v, 5) for k, v in worst.items()}, "input_distribution": dict(kinds), "exhaustive": False,
                     "distinct_nontrivial": len(set(impl)),
